@@ -1,0 +1,25 @@
+//go:build verif
+
+package engine
+
+import (
+	"cmp"
+	"slices"
+
+	"github.com/nspcc-dev/neofs-node/pkg/local_object_storage/shard"
+)
+
+// VerifSearchShards returns the attached shards ordered by ID, so that the
+// conformance harness of the "search" family (/verif) can place object copies
+// into particular shards and query them one by one. It adds no behaviour.
+func (e *StorageEngine) VerifSearchShards() []*shard.Shard {
+	e.mtx.RLock()
+	defer e.mtx.RUnlock()
+
+	res := make([]*shard.Shard, 0, len(e.shards))
+	for _, sh := range e.shards {
+		res = append(res, sh.Shard)
+	}
+	slices.SortFunc(res, func(a, b *shard.Shard) int { return cmp.Compare(a.ID().String(), b.ID().String()) })
+	return res
+}
